@@ -96,12 +96,39 @@ func TestC20(t *testing.T) {
 			fns := append(append([]string{}, readFns...), bufFns...)
 			fn := fns[rapid.IntRange(0, len(fns)-1).Draw(rt, "fn")]
 			mode := int64(rapid.IntRange(0, 1).Draw(rt, "handlermode"))
+			if fam == "deep" && rapid.IntRange(0, 2).Draw(rt, "verydeep?") == 0 {
+				// the traversals have no depth limit of their own: nesting far beyond 10 000
+				fn = bufFns[rapid.IntRange(0, len(bufFns)-1).Draw(rt, "buffn")]
+				p[0] = int64(rapid.IntRange(10001, e.cfg.Pick(160000, 600000)).Draw(rt, "verydeep"))
+			}
 			steps := []core.Case{{Kind: fn, Strs: []string{fam}, Ints: append([]int64{1, mode}, p...)}}
 			r.Label("family." + fam)
 			if err := runHistory("shape", steps, true); err != nil {
 				failRapid(rt, r, caseOf("C20", "shape", nil, err), err)
 			}
 		})
+		// 1a. traversals far beyond the depth limit (the handler machines have no limit of their
+		// own, so their stack must grow amortised at any depth): every mixture at three depths
+		if e.enumStage("very-deep-traversals", "8 array/object mixtures x depths {20000, 50000, 120000} x the traversal matching the outermost container, declining handler", true) {
+		vd:
+			for pat := int64(0); pat < 8; pat++ {
+				for _, d := range []int64{20000, 50000, 120000} {
+					if !e.cfg.Mine(int(pat*3 + d)) {
+						continue
+					}
+					probe := c20Shape("deep", []int64{1, pat})
+					fn := "HandleArrayValues"
+					if probe[0] == '{' {
+						fn = "HandleObjectValues"
+					}
+					steps := []core.Case{{Kind: fn, Strs: []string{"deep"}, Ints: []int64{1, 0, d, pat}}}
+					if err := runHistory("very-deep", steps, true); err != nil {
+						r.Fail(caseOf("C20", "very-deep", nil, err), err)
+						break vd
+					}
+				}
+			}
+		}
 		// 1b. cross-entry-point grid: a big document through one entry point, then many small
 		// ones through another, on the same reader and buffer (size hints that outlive the call
 		// they were learned in, in every pairing of entry points)
@@ -192,6 +219,6 @@ func TestC20(t *testing.T) {
 		r.Extra("max_bound_utilisation", maxUse)
 		r.Extra("max_alloc_of_a_later_call_on_a_tiny_input_bytes", maxTiny)
 		r.Extra("max_alloc_per_input_byte_on_inputs_over_4KiB", maxPerByte)
-		r.Extra("bound", fmt.Sprintf("sum(alloc) <= sum(len*(%d + %d*D)) + %d*calls over every prefix of a history", c20K, c20Kd, c20C))
+		r.Extra("bound", fmt.Sprintf("sum(alloc) <= sum(len*(K + %d*D)) + %d*calls over every prefix of a history, K = %d for the generic decoders and %d for Valid/SkipValue/SkipValueFast/Handle*Values", c20Kd, c20C, c20K, c20KBuf))
 	})
 }
